@@ -60,7 +60,7 @@ func points(k blk.Kind) []string {
 		if k.Evict {
 			p = append(p, "handoff-vs-cancel")
 		} else {
-			p = append(p, "handoff-vs-timeout")
+			p = append(p, "handoff-vs-timeout", "next-in-line-cancelled-but-not-evicted")
 		}
 	}
 	return p
@@ -72,7 +72,7 @@ func grid() []scenario {
 		for _, p := range points(k) {
 			for cap := 1; cap <= 2; cap++ {
 				for nw := 1; nw <= 3; nw++ {
-					if (p == "loser-retry" && (cap < 2 || nw < 2)) || (strings.HasPrefix(p, "handoff") && nw < 2) {
+					if (p == "loser-retry" && (cap < 2 || nw < 2)) || ((strings.HasPrefix(p, "handoff") || strings.HasPrefix(p, "next-in-line")) && nw < 2) {
 						continue
 					}
 					for _, o := range outcomes {
@@ -203,7 +203,7 @@ func run(t *testing.T, sc scenario, r *rand.Rand) outcomeT {
 		}
 		for i := 0; i < sc.Waiters; i++ {
 			w.Spawn()
-			if sc.Point == "asleep" || sc.Point == "loser-retry" || strings.HasPrefix(sc.Point, "handoff") {
+			if sc.Point == "asleep" || sc.Point == "loser-retry" || strings.HasPrefix(sc.Point, "handoff") || strings.HasPrefix(sc.Point, "next-in-line") {
 				w.Quiesce() // arrival order is a fact
 				if sc.Point == "handoff-vs-timeout" {
 					time.Sleep(time.Millisecond)
@@ -223,6 +223,17 @@ func run(t *testing.T, sc scenario, r *rand.Rand) outcomeT {
 		case "handoff-vs-cancel":
 			releaseNext()
 			snap("after-release-with-handoff-to-cancelled-waiter")
+		case "next-in-line-cancelled-but-not-evicted":
+			// without eviction a cancelled caller stays queued; the release must still serve somebody
+			nl := w.Waiters[0]
+			if sc.Kind.Ordering == "lifo" {
+				nl = w.Waiters[len(w.Waiters)-1]
+			}
+			w.CancelWaiter(nl)
+			w.Quiesce()
+			reached.Store(true)
+			releaseNext()
+			snap("after-release-with-cancelled-caller-next-in-line")
 		case "handoff-vs-timeout":
 			// release at exactly the instant the first waiter's backlog timeout fires
 			time.Sleep(w.Waiters[0].Arrived + sc.Kind.Timeout - w.Now())
